@@ -115,6 +115,8 @@ static void se(int id, int k) { logev('S', id, k, 0); }
 static int cy(int id, int k, int v) { logev('Y', id, k, v); if (g_fault_inst == id && g_fault_k == k) { ++g_faults_fired; throw clause_fault{}; } return v; }
 static int cret(int id, int v) { logev('R', id, 0, v); if (g_fault_inst == id && g_fault_k == -1) { ++g_faults_fired; throw clause_fault{}; } return v; }
 static std::runtime_error cthr(int id) { logev('T', id, 0, 0); return std::runtime_error("co " + std::to_string(id)); }
+// the exception of an LR_CO_THROW is computed from the local as it is when the result is awaited
+static std::runtime_error cthrv(int id, int v) { logev('T', id, 0, v); return std::runtime_error("cov " + std::to_string(v)); }
 
 // ---------------- shapes: one statement per line ----------------
 enum RetK { RT_VALUE, RT_VOID, RT_THROW, RT_PARAM };
@@ -146,6 +148,8 @@ SHAPE_BEGIN(20) NAMED_ALLOW_CALL(m, cl0()).CO_YIELD(cy(x.id, 0, x.v[1])).CO_RETU
 SHAPE_BEGIN(21) NAMED_REQUIRE_CALL(m, ce(trompeloeil::_)).TIMES(1, 3).CO_THROW(cthr(x.id)).CO_YIELD(cy(x.id, 0, x.v[1])).CO_YIELD(cy(x.id, 1, x.v[1] + 1)) SHAPE_END
 SHAPE_BEGIN(22) NAMED_ALLOW_CALL(m, cl0()).LR_CO_YIELD(cy(x.id, 0, x.v[1])).CO_YIELD(cy(x.id, 1, x.v[1] + 1)).LR_CO_RETURN(cret(x.id, x.v[1] + 10)) SHAPE_END
 SHAPE_BEGIN(23) NAMED_ALLOW_CALL(m, ce(trompeloeil::_)).CO_RETURN(cret(x.id, x.v[1] + 10)).CO_YIELD(cy(x.id, 0, x.v[1])).LR_CO_YIELD(cy(x.id, 1, x.v[1] + 1)).CO_YIELD(cy(x.id, 2, x.v[1] + 2)) SHAPE_END
+SHAPE_BEGIN(24) NAMED_REQUIRE_CALL(m, ce(trompeloeil::_)).TIMES(1, 3).LR_CO_THROW(cthrv(x.id, x.v[1])) SHAPE_END
+SHAPE_BEGIN(25) NAMED_ALLOW_CALL(m, cl0()).CO_YIELD(cy(x.id, 0, x.v[1])).LR_CO_THROW(cthrv(x.id, x.v[1])) SHAPE_END
 static const CShape cshapes[] = {
   {CF_CE, 0, RT_VALUE, 0, 1, 1, false, false, 0, "m.ce(trompeloeil::_)", cshape_0},
   {CF_CE, 1, RT_VALUE, 1, 1, 1, false, true, 0, "m.ce(x.v[0])", cshape_1},
@@ -171,9 +175,11 @@ static const CShape cshapes[] = {
   {CF_CE, 2, RT_THROW, 0, 1, 3, false, false, 0, "m.ce(trompeloeil::_)", cshape_21},
   {CF_CL0, 2, RT_VALUE, 0, 0, -1, false, false, 0, "m.cl0()", cshape_22},
   {CF_CE, 3, RT_VALUE, 0, 0, -1, false, false, 0, "m.ce(trompeloeil::_)", cshape_23},
+  {CF_CE, 0, RT_THROW, 0, 1, 3, false, false, 0, "m.ce(trompeloeil::_)", cshape_24},
+  {CF_CL0, 1, RT_THROW, 0, 0, -1, false, false, 0, "m.cl0()", cshape_25},
 };
 // which clauses are LR_ (see the local as it is when evaluated): bit k = yield k, bit 8 = the CO_RETURN expression
-static unsigned lr_mask(int shape) { return shape == 22 ? (1u | 256u) : shape == 23 ? 2u : 0u; }
+static unsigned lr_mask(int shape) { return shape == 22 ? (1u | 256u) : shape == 23 ? 2u : (shape == 24 || shape == 25) ? 512u : 0u; }   // bit 9: the CO_THROW expression
 static const int ncshapes = sizeof cshapes / sizeof cshapes[0];
 
 // ---------------- model ----------------
@@ -365,7 +371,7 @@ class ExecC {
       return;
     }
     finishes = true;
-    if (d.ret == RT_THROW) { want.push_back(Ev{'T', c.exp, 0, 0}); throws = true; }
+    if (d.ret == RT_THROW) { long tv = (lr_mask(e.shape) & 512u) ? e.live_v1 : 0; c.ret_val = tv; want.push_back(Ev{'T', c.exp, 0, tv}); throws = true; }
     else if (d.ret == RT_VOID) { /* CO_RETURN() has no expression to evaluate */ }
     else { long base = (lr_mask(e.shape) & 256u) ? e.live_v1 : e.v[1]; long v = d.ret == RT_PARAM ? c.arg + 100 : (d.nyield ? base + 10 : base); c.ret_val = v; want.push_back(Ev{'R', c.exp, 0, v}); if (g_fault_inst == c.exp && g_fault_k == -1) throws = true; }
   }
@@ -505,7 +511,8 @@ class ExecC {
     if (got_other) { fail("result", "awaiting coroutine#" + std::to_string(cid) + " raised an unknown exception"); return; }
     if (got_fault) { /* an injected clause fault surfaced where the result is awaited: as required */ }
     else if (want_throw_std) {
-      if (!got_std || what != "co " + std::to_string(c.exp)) { fail("result", "awaiting coroutine#" + std::to_string(cid) + " of " + desc(c.exp) + " did not raise the CO_THROW exception"); return; }
+      const std::string want_what = (lr_mask(e.shape) & 512u) ? "cov " + std::to_string(c.ret_val) : "co " + std::to_string(c.exp);
+      if (!got_std || what != want_what) { fail("result", "awaiting coroutine#" + std::to_string(cid) + " of " + desc(c.exp) + " did not raise the CO_THROW exception"); return; }
     } else {
       if (got_std) { fail("result", "awaiting coroutine#" + std::to_string(cid) + " raised '" + what + "' but " + desc(c.exp) + " has a CO_RETURN"); return; }
       if (d.ret != RT_VOID) {
